@@ -275,6 +275,8 @@ def lnL_of(problem, expm=None):
     tree = problem["tree"]
     nw = newick(tree, problem["len"] == "nw", problem["named"]) + ";"
     t = make_tree(nw)
+    for op in problem.get("api", []):          # the root moved by the library's own tree methods
+        t = getattr(t, op[0])(*op[1:])
     kw = {"bins": cfg["bins"]} if cfg.get("bins", 1) > 1 else {}
     if expm:
         kw["expm"] = expm
@@ -716,6 +718,56 @@ def gen_reroot(tier, seed):
                 yield [pb, [["reroot", where]]]
 
 
+def api_moves(tree):
+    """root moves offered by the tree API itself"""
+    tips = tips_of(tree)
+    internal = [n[0] for n in walk(tree) if n[2] and n is not tree]
+    out = [[["unrooted"]], [["root_at_midpoint"]]]
+    out += [[["rooted_with_tip", t]] for t in tips[:2]]
+    out += [[["rooted_at", n]] for n in internal[:2]]
+    out += [[["unrooted"], ["rooted_with_tip", tips[-1]]]]
+    return out
+
+
+def contract_api_reroot(case):
+    """case = [problem, api ops]: lnL on the tree after the library's own root move == lnL on the tree as given"""
+    problem, ops = case
+    l0 = base_lnL(problem)
+    if isinstance(l0, Exception) or not math.isfinite(l0):
+        return ("skip",)
+    q = dict(problem)
+    q["api"] = ops
+    site = "api-reroot:" + "+".join(o[0] for o in ops)
+    mid = problem["model"]
+    root_kids = problem["tree"][2]
+    shape = "root[" + ",".join("tip" if not k[2] else "clade" for k in root_kids) + "]"
+    try:
+        l1 = lnL_of(q)
+    except Exception as e:
+        return ("fail", f"{site}/{mid}/{shape}/raises {type(e).__name__}", f"problem {json.dumps(problem)} ops {ops}: "
+                f"{type(e).__name__}: {str(e)[:300]}")
+    if not close(l1, l0):
+        return ("fail", f"{site}/{mid}/{shape}/lnL-differs", f"problem {json.dumps(problem)} ops {ops}: lnL(tree)={l0!r}, "
+                f"lnL(after the move)={l1!r}, diff={l1 - l0:.3e}")
+    return ("ok", True)
+
+
+def gen_api_reroot(tier, seed):
+    for idx, pb in gen_bases(tier, seed, "reroot"):
+        if not MODELS[pb["model"]]["rev"] or pb["len"] != "nw" or not pb["named"]:
+            continue
+        if any(ep for _, _, ep, _ in edges_of(pb["tree"])):
+            continue                            # edge-specific parameters are keyed by edge name; a root move renames edges
+        for kids in ([0, 1], [1, 0]) if len(pb["tree"][2]) == 2 else ([0],):
+            q = dict(pb)
+            if kids == [1, 0]:
+                t = list(pb["tree"])
+                t[2] = [pb["tree"][2][1], pb["tree"][2][0]]
+                q["tree"] = t
+            for ops in api_moves(q["tree"]):
+                yield [q, ops]
+
+
 def gen_split(tier, seed):
     thorough = tier == "thorough"
     rnd = random.Random(f"{seed}/split")
@@ -839,6 +891,18 @@ BOUNDED = {
                  "with its edge; " + _MODELS_TXT + "; " + _TREES_TXT + "; thorough + 500 seeded 5-7 tip problems",
         "rule": "a case = (problem, [reroot placement]); the re-rooted tree is built from the undirected edge list "
                 "by the spec, not by cogent3; non-trivial always; distinct by hash of the case",
+    },
+    "api_reroot": {
+        "gen": gen_api_reroot, "contract": contract_api_reroot,
+        "functions": ["core.tree.TreeNode.unrooted / rooted_at / rooted_with_tip / PhyloNode.root_at_midpoint -> "
+                      "make_likelihood_function", "evolve.likelihood_function.LikelihoodFunction.get_log_likelihood"],
+        "bound": "the base problems of the reroot contract that carry their lengths in the newick string, have named internal "
+                 "nodes and no edge-specific parameters; time-reversible models; both orders of a bifurcating root's children; "
+                 "moves: unrooted(), root_at_midpoint(), rooted_with_tip (2 tips), rooted_at (2 internal nodes), "
+                 "unrooted().rooted_with_tip(last tip)",
+        "rule": "lnL on the tree returned by the library's own root move == lnL on the tree as given (relative 1e-9); "
+                "always non-trivial",
+        "shards": 16,
     },
     "split": {
         "gen": gen_split, "contract": contract_steps,
